@@ -62,6 +62,34 @@ def run(repo, rep):
     p9_, n9_ = shared_command_set_problems(repo)
     rep.check(not p9_, 'C17.P9', 'sopclass:responses:own-command-set', sc.relpath,
               '%d message(s) constructed over an existing command set, none shares elements it writes' % n9_, '; '.join(p9_[:3]))
+    # P10: what the provider demands of an N-EVENT-REPORT is what the standard makes mandatory
+    from ..oracles import ps3_4
+    rep.trust('PS3.4 Table J.3-2 as transcribed in pnd_static/oracles/ps3_4.py')
+    rep.rule('C17.P10', 'a table of the attributes a storage commitment event report must carry, by Event Type ID, demands nothing the '
+             'standard makes conditional (PS3.4 J.3-2: in a type 2 report the Referenced SOP Sequence is 1C -- absent when nothing was '
+             'committed): a well-formed report is answered with the handler\'s outcome, not refused', 1)
+    p10, n10 = [], 0
+    cands = []
+    for nm_, vals_ in sc.assigns.items():
+        cands.append((nm_, repo.try_fold(vals_[-1], sc), None))
+    for c_ in sc.classes.values():
+        for nm_, e_ in c_.attrs.items():
+            cands.append(('%s.%s' % (c_.name, nm_), repo.try_fold(e_, sc, c_), c_))
+    for nm_, v_, _c in cands:
+        if not (isinstance(v_, dict) and v_ and all(isinstance(k_, int) and not isinstance(k_, bool) for k_ in v_)
+                and all(isinstance(x_, (tuple, list, set, frozenset)) and all(isinstance(y_, str) for y_ in x_) for x_ in v_.values())):
+            continue
+        if not any(set(x_) & ps3_4.COMMITMENT_EVENT_ATTRIBUTES for x_ in v_.values()) or not set(v_) <= {1, 2}:
+            continue
+        n10 += 1
+        for k_, req_ in sorted(v_.items()):
+            extra = set(req_) & ps3_4.COMMITMENT_EVENT_CONDITIONAL.get(k_, frozenset())
+            if extra:
+                p10.append('%s[%d] demands %s, which PS3.4 J.3-2 makes conditional (1C) for event type %d: a report without it is '
+                           'well-formed' % (nm_, k_, ', '.join(sorted(extra)), k_))
+    rep.notes['event_requirement_tables'] = n10
+    rep.check(not p10, 'C17.P10', 'sopclass:commitment-event-information', sc.relpath,
+              '%d table(s) of required event information, none stricter than the standard' % n10, '; '.join(p10))
     rep.rule('C17.P1', 'each response is sent on the presentation context the request arrived on', 7)
     rep.rule('C17.P2', 'Message ID Being Responded To <- the request\'s Message ID', 7)
     rep.rule('C17.P3', 'Affected SOP Class UID <- the request\'s SOP class (or the context\'s abstract syntax); Affected SOP '
